@@ -190,14 +190,22 @@ func (c *Conn) AsyncRead() {
 
 	// If is not EPOLLONESHOT, the reading event may be re-dispatched for more than
 	// once, here we reduce the duplicate reading events.
-	cnt := atomic.AddInt32(&c.readEvents, 1)
-	if cnt > 2 {
-		atomic.AddInt32(&c.readEvents, -1)
-		return
-	}
-	// Only handle it when it's the first reading event.
-	if cnt > 1 {
-		return
+	// The counter is raised in one atomic step and never above 2: raising it
+	// first and lowering it again afterwards lets the running task consume the
+	// transient unit, after which the counter goes negative and the task
+	// never terminates.
+	for {
+		cnt := atomic.LoadInt32(&c.readEvents)
+		if cnt >= 2 {
+			return
+		}
+		if atomic.CompareAndSwapInt32(&c.readEvents, cnt, cnt+1) {
+			// Only handle it when it's the first reading event.
+			if cnt >= 1 {
+				return
+			}
+			break
+		}
 	}
 
 	g.IOExecute(func(pBuf *[]byte) {
